@@ -20,6 +20,7 @@
 #include <parmcb/config.hpp>
 #include <parmcb/detail/lex_dijkstra.hpp>
 #include <parmcb/detail/util.hpp>
+#include <parmcb/detail/verif.hpp>
 
 #include <parmcb/forestindex.hpp>
 #include <parmcb/spvecgf2.hpp>
@@ -525,11 +526,13 @@ namespace parmcb {
                 while (ws->has_pred()) {
                     Edge a = ws->pred();
                     if (result.insert(a).second == false) {
+                        PARMCB_VERIF_PROBE(trees_candidate_repeated_edge);
                         valid = false;
                         break;
                     }
                     cycle_weight += boost::get(weight_map, a);
                     if (use_weight_limit && cycle_weight > weight_limit) {
+                        PARMCB_VERIF_PROBE(trees_candidate_limit_prune);
                         valid = false;
                         break;
                     }
@@ -547,11 +550,13 @@ namespace parmcb {
                 while (ws->has_pred()) {
                     Edge a = ws->pred();
                     if (result.insert(a).second == false) {
+                        PARMCB_VERIF_PROBE(trees_candidate_repeated_edge);
                         valid = false;
                         break;
                     }
                     cycle_weight += boost::get(weight_map, a);
                     if (use_weight_limit && cycle_weight > weight_limit) {
+                        PARMCB_VERIF_PROBE(trees_candidate_limit_prune);
                         valid = false;
                         break;
                     }
